@@ -2,7 +2,7 @@
    Statements only; proofs are `exact <lemma of CellProofs>`.  `reachable ops s` ranges over every
    schedule of every set of resolver threads (value / exception / drop / move-then-destroy, any number,
    any payloads), waiter threads of every kind, and the final destructor of the shared promise. *)
-From Cocls Require Import Base BaseProofs CellDefs CellProofs.
+From Cocls Require Import Base BaseProofs CellDefs CellProofs PromDefs PromProofs.
 Local Open Scope Z_scope.
 
 (* at most one call ever reports success *)
@@ -38,6 +38,89 @@ Theorem c01_losers_leave_no_trace : forall s i k,
   fst (tstep s i) = set_thr s i (TR k (match k with KMove => RDtor (Some false) | _ => RDone false end)).
 Proof. exact loser_leaves_no_trace. Qed.
 Print Assumptions c01_losers_leave_no_trace.
+
+(* ---------- promise OBJECTS over several futures (PromDefs.v: every op sequence of move construction, move
+   assignment, explicit drop, calls through empty / moved-from promises, bind closures, destruction) ---------- *)
+
+(* in every state reached by any op sequence: each future has at most one owner, is pending exactly while owned,
+   resolve() ran on it at most once and exactly once iff it is ready *)
+Theorem c01_single_winner_per_cell : forall isvoid ops c cl,
+  nth_error (cells (fst (prun isvoid pinit ops))) c = Some cl ->
+  (c_nres cl <= 1 /\ (c_nres cl = 1 <-> c_slot cl = CReady) /\
+   refs (fst (prun isvoid pinit ops)) c <= 1 /\ (refs (fst (prun isvoid pinit ops)) c = 1 <-> exists l, c_slot cl = CChain l))%nat.
+Proof. exact single_winner_per_cell. Qed.
+Print Assumptions c01_single_winner_per_cell.
+
+Theorem c01_prom_invariants : forall isvoid ops s, PInv s -> PInv2 s ->
+  PInv (fst (prun isvoid s ops)) /\ PInv2 (fst (prun isvoid s ops)).
+Proof. exact pinv12_run. Qed.
+Print Assumptions c01_prom_invariants.
+
+(* a moved-from / used / empty promise never wins: its calls return false and change nothing at all *)
+Theorem c01_empty_promise_never_wins : forall isvoid s p,
+  nth_error (proms s) p = Some (Some None) ->
+  (forall v, pstep isvoid s (PVal p v) = (s, [0])) /\ (forall e, pstep isvoid s (PExc p e) = (s, [0])) /\
+  pstep isvoid s (PDrop p) = (s, [0]) /\ pstep isvoid s (PQueryProm p) = (s, [0]).
+Proof. exact empty_call_no_trace. Qed.
+Print Assumptions c01_empty_promise_never_wins.
+
+(* move assignment onto a live promise: source emptied, target takes the source's future, the overwritten future
+   is resolved by exactly one resolve() and no other future is touched *)
+Theorem c01_assign_semantics : forall isvoid s p q cp oq,
+  PInv s -> nth_error (proms s) p = Some (Some (Some cp)) -> nth_error (proms s) q = Some (Some oq) -> p <> q ->
+  let s' := fst (pstep isvoid s (PAssign p q)) in
+  nth_error (proms s') q = Some (Some None) /\ nth_error (proms s') p = Some (Some oq) /\
+  (exists cl cl', nth_error (cells s) cp = Some cl /\ nth_error (cells s') cp = Some cl' /\
+                  c_slot cl' = CReady /\ c_pay cl' = c_pay cl /\ c_nres cl = 0%nat /\ c_nres cl' = 1%nat) /\
+  (forall c, c <> cp -> nth_error (cells s') c = nth_error (cells s) c).
+Proof. exact assign_semantics. Qed.
+Print Assumptions c01_assign_semantics.
+
+(* ... and that future reads as no-value *)
+Theorem c01_overwritten_is_novalue_once : forall isvoid s p q cp oq,
+  PInv s -> PInv2 s -> nth_error (proms s) p = Some (Some (Some cp)) -> nth_error (proms s) q = Some (Some oq) -> p <> q ->
+  exists cl', nth_error (cells (fst (pstep isvoid s (PAssign p q)))) cp = Some cl' /\
+              c_slot cl' = CReady /\ c_pay cl' = ONone /\ c_nres cl' = 1%nat.
+Proof. exact assign_overwritten_novalue. Qed.
+Print Assumptions c01_overwritten_is_novalue_once.
+
+Theorem c01_assign_onto_empty : forall isvoid s p q oq,
+  nth_error (proms s) p = Some (Some None) -> nth_error (proms s) q = Some (Some oq) -> p <> q ->
+  let s' := fst (pstep isvoid s (PAssign p q)) in
+  cells s' = cells s /\ nth_error (proms s') q = Some (Some None) /\ nth_error (proms s') p = Some (Some oq) /\
+  snd (pstep isvoid s (PAssign p q)) = [0].
+Proof. exact assign_onto_empty. Qed.
+Print Assumptions c01_assign_onto_empty.
+
+Theorem c01_move_construct : forall isvoid s p q oq,
+  nth_error (proms s) p = Some None -> nth_error (proms s) q = Some (Some oq) ->
+  let s' := fst (pstep isvoid s (PMoveC p q)) in
+  cells s' = cells s /\ nth_error (proms s') q = Some (Some None) /\ nth_error (proms s') p = Some (Some oq).
+Proof. exact move_construct_semantics. Qed.
+Print Assumptions c01_move_construct.
+
+(* destruction or explicit drop of an owner resolves its future (payload untouched = no-value) by one resolve() *)
+Theorem c01_destroy_or_drop_resolves : forall isvoid s p cp,
+  PInv s -> nth_error (proms s) p = Some (Some (Some cp)) ->
+  forall x, x = PDestroy p \/ x = PDrop p ->
+  exists cl cl', nth_error (cells s) cp = Some cl /\ nth_error (cells (fst (pstep isvoid s x))) cp = Some cl' /\
+                 c_slot cl' = CReady /\ c_pay cl' = c_pay cl /\ c_nres cl' = 1%nat.
+Proof. exact destroy_resolves. Qed.
+Print Assumptions c01_destroy_or_drop_resolves.
+
+(* a ready future is never touched again by any operation on any promise, closure or waiter *)
+Theorem c01_ready_is_stable : forall isvoid s x c cl,
+  PInv s -> nth_error (cells s) c = Some cl -> c_slot cl = CReady ->
+  nth_error (cells (fst (pstep isvoid s x))) c = Some cl.
+Proof. exact ready_is_stable. Qed.
+Print Assumptions c01_ready_is_stable.
+
+(* non-vacuity: the scenario of seeded change C01-3 (live target overwritten from a named source, stale call) *)
+Example c01_prom_nonvacuous :
+  prom_run false [[1;0;0]; [1;1;1]; [14;7;0;0]; [3;0;1]; [15;0]; [16;1]; [6;1;5]; [6;0;7]; [15;1]]
+  = [[0]; [0]; [0]; [0;7;0;0]; [1;0;0]; [0]; [0]; [1]; [1;1;7];
+     [-1]; [-1]; [0]; [0]; [-1]; [-1]; [1;0;0]; [1;1;7]; [2]; [10;0;0]].
+Proof. vm_compute. reflexivity. Qed.
 
 (* non-vacuity: a reachable 3-resolver race with a blocked waiter *)
 Example c01_nonvacuous :
